@@ -205,6 +205,7 @@ def merged_tables(res):
             continue
         c = LR.Table(t.name, t.header, t.nkeys, t.has_I)
         c.layout = t.layout
+        c.header_line = t.header_line
         c.rows = list(t.rows)
         out[t.name] = c
         order.append(t.name)
@@ -321,6 +322,46 @@ def header_columns(t):
     return ' '.join(toks[k + 1:])
 
 
+def heading_conflicts(t, reader_names):
+    """Where the reader's grouping of the header words into column names contradicts the printed page.  Two neighbouring
+    words of the header line (after the index column) MUST be different columns when they are two or more blanks apart
+    or stand over different value fields of the table's fullest row; they MUST be one heading when they are exactly one
+    blank apart and stand over the same value field ('GENERATION RATE', 'Heat Flow').  Anything else (words over
+    columns no row prints) is left undecided.  Returns None when the words themselves differ (judged elsewhere)."""
+    line = t.header_line
+    if line is None or not t.rows:
+        return None
+    m = re.search(r'(INDEX|IND\.)(?=\s|$)', line)
+    if not m:
+        return None
+    words = [(w.group(), w.start(), w.end()) for w in re.finditer(r'\S+', line) if w.start() >= m.end()]
+    groups = [c.split() for c in reader_names]
+    if [w for g in groups for w in g] != [w[0] for w in words]:
+        return None
+    row = max(t.rows, key=lambda r: len(r[2]))
+    ends = [c[2] for c in row[2]]
+    los = [m.end()] + ends[:-1]
+
+    def field(w):
+        c = (w[1] + w[2]) / 2.0
+        return next((k for k in range(len(ends)) if los[k] < c <= ends[k]), None)
+    joined = []
+    for g in groups:
+        joined += [True] * (len(g) - 1) + [False]
+    out = []
+    for k in range(len(words) - 1):
+        w1, w2 = words[k], words[k + 1]
+        gap = w2[1] - w1[2]
+        f1, f2 = field(w1), field(w2)
+        if gap >= 2 or (f1 is not None and f2 is not None and f1 != f2):
+            if joined[k]:
+                out.append('%r and %r are one column name for the reader, but stand %d blanks apart over value fields %r and %r' % (w1[0], w2[0], gap, f1, f2))
+        elif gap == 1 and f1 is not None and f1 == f2:
+            if not joined[k]:
+                out.append('%r and %r are two columns for the reader, but are one heading over value field %r' % (w1[0], w2[0], f1))
+    return out
+
+
 def check_listing(ctx, path, label, ref, vk, skip, case, base=None, indices=None, routes=False):
     """Opens path with the given skipped tables; compares every exposed table at every result time with ref.
     base: {index: {table: (row names, data)}} from the unskipped reader (differential part).  Returns that dict."""
@@ -365,6 +406,13 @@ def check_listing(ctx, path, label, ref, vk, skip, case, base=None, indices=None
                     hc = header_columns(t)
                     got = ' '.join(' '.join(tab.column_name).split())
                     ctx.count('headers_compared')
+                    if sim != 'AUTOUGH2':
+                        conflicts = heading_conflicts(t, tab.column_name)
+                        if conflicts is not None:
+                            ctx.count('header_groupings_judged')
+                            if conflicts:
+                                cmp_.violation('column-headings-grouped-differently:%s:%s' % (sim, name),
+                                               'table %s, header line %r, reader columns %r: %s' % (name, t.header_line.strip(), list(tab.column_name), '; '.join(conflicts)))
                     if got != hc:
                         cmp_.violation('column-names-differ-from-header:%s:%s' % (sim, name),
                                        'table %s: column names %r, header line after the index column %r' % (name, got[:120], hc[:120]))
